@@ -19,6 +19,15 @@ pub fn roundtrip(rs: &RefSentence) -> TestResult {
         Err(e) => return Err(format!("parser rejects the writer's output {y:?}: {e}").into()),
     };
     let got = oracle::observe_sentence(&p);
+    let mut dirty = Sentence::from_tokenized("zz/Q1/Q2/Q3 y/R1 xxx/S1/S2/S3 w/T").map_err(|e| e.to_string())?;
+    dirty
+        .update_partial_annotation(&y)
+        .map_err(|e| format!("update_partial_annotation rejects the writer's output {y:?}: {e}"))?;
+    ensure_eq!(
+        oracle::observe_sentence(&dirty),
+        got,
+        "update_partial_annotation on a used sentence differs from from_partial_annotation for {y:?}"
+    );
     if let Err(e) = oracle::same_annotation(&got, rs, true) {
         return Err(format!("write+parse changes the sentence (written {y:?}): {e}").into());
     }
